@@ -1077,6 +1077,12 @@ def replay(prop, path):
                 elif e["ev"] == "End":
                     lines.append(dict(ev="End"))
             inv = ["NotBothThreshold"]
+        elif obj["module"] == "SessionTrace" and sc.get("storm_ms"):
+            lines.append(dict(ev="Begin", sc=sc["id"]))
+            for e in evs:
+                if e["ev"] == "ConcPrepare":
+                    lines.append(dict(ev="ConcPrepare", account=e["account"], accepted=e["accepted"], of=e["of"]))
+            inv = ["Lifecycle"]
         elif obj["module"] == "SessionTrace":
             project_calls(sc["id"], sc, evs, lines, {"signer-1", "signer-2", "signer-3"})
             inv = ["Lifecycle", "PeersOnly"]
